@@ -29,6 +29,12 @@ def V(n):
     return ('var', n)
 
 
+def fullname(s, name):
+    """full name of a variable the property expects the sector to have (it may be missing on a
+    broken tree: the identity then fails instead of the harness)"""
+    return s.FullCode + '__' + name
+
+
 def make_targets(a, prog):
     from sfc_models.sector import Market
     from sfc_models.sector_definitions import MoneyMarket, DepositMarket
@@ -68,7 +74,7 @@ def make_targets(a, prog):
                 for s in m.CurrencyZone.GetSectors():
                     if s.HasF and s.Code != m.IssuerShortCode and ('DEM_' + code) not in a['declared_before'].get(s.ID, ()):
                         out.append(('default-money-demand|%s' % s.FullCode,
-                                    G.sum_ast([(1, V(s.GetVariableName('DEM_' + code))), (-1, V(s.GetVariableName('F')))])))
+                                    G.sum_ast([(1, V(fullname(s, 'DEM_' + code))), (-1, V(fullname(s, 'F')))])))
             continue
         # goods / labour markets: suppliers
         sups = []
@@ -79,9 +85,9 @@ def make_targets(a, prog):
             sups.append(m.ResidualSupply)
         alloc = [(1, V(sup))]
         for s in sups:
-            mv = m.GetVariableName('SUP_' + s.FullCode)
+            mv = fullname(m, 'SUP_' + s.FullCode)
             alloc.append((-1, V(mv)))
-            own = s.GetVariableName(m.GetSupplierTerm(s))
+            own = fullname(s, m.GetSupplierTerm(s))
             if s.CurrencyZone.ID == m.CurrencyZone.ID:
                 t = G.sum_ast([(1, V(own)), (-1, V(mv))])
             else:
@@ -99,7 +105,7 @@ def make_targets(a, prog):
             s = a['objs'][sid]
             terms = [(-1, V(s.GetVariableName('F')))]
             for c in list(codes) + [residual]:
-                terms.append((1, V(s.GetVariableName('DEM_' + c))))
+                terms.append((1, V(fullname(s, 'DEM_' + c))))
             out.append(('portfolio|%s' % s.FullCode, G.sum_ast(terms)))
     return out
 
